@@ -3,7 +3,7 @@ from .. import core
 from . import _ecell_prop as E
 
 PID = 'C08'
-PROFILE_C08 = {'failure': 0.9, 'blacklist': 0.4, 'pressure': 0.5, 'identity': 0.3}
+PROFILE_C08 = {'failure': 0.9, 'blacklist': 0.4, 'pressure': 0.5, 'identity': 0.3, 'frozen': 0.45}
 RULE_C08 = 'C08 profile: servers going down/up/frozen with clock ticks around each retention boundary, blacklist changes, unschedule marks, capacity pressure'
 
 
